@@ -3,8 +3,8 @@
    C11 memory model allows beyond interleavings are not covered (see C17_orderings).
    Property theorems only; each is closed by [exact] of a lemma proved in proofs/. *)
 From SQ Require Import lib.Base gen.Gen_C17.
-From SQ Require model.Spsc proofs.SpscClose proofs.SpscData proofs.SpscProofs proofs.SpscWake proofs.SpscWakeInv proofs.SpscWakeThm proofs.SpscFix.
-From SQ Require model.CursorRing model.Worker proofs.CursorProofs proofs.WorkerProofs.
+From SQ Require model.Spsc model.SpscExplore proofs.SpscClose proofs.SpscData proofs.SpscProofs proofs.SpscWake proofs.SpscWakeInv proofs.SpscWakeThm proofs.SpscFix.
+From SQ Require model.CursorRing model.Worker model.RxRing proofs.CursorProofs proofs.WorkerProofs proofs.RxRingProofs.
 Import Spsc.
 Local Open Scope N_scope.
 
@@ -34,7 +34,12 @@ Theorem C17_orderings :
   Gen_C17.worker_submit_add_ordering = 2 /\ Gen_C17.worker_drop_sub_ordering = 2 /\
   Gen_C17.minimum_capacity = 2 /\
   (* the close protocol the model's theorems are proved for: the result of open.swap decides who frees *)
-  Gen_C17.close_last_out_frees = 0.
+  Gen_C17.close_last_out_frees = 0 /\
+  (* ... and each side wakes its peer both before and after open.swap(false) *)
+  Gen_C17.close_pre_wake_sender = 1 /\ Gen_C17.close_post_wake_sender = 1 /\
+  Gen_C17.close_pre_wake_receiver = 1 /\ Gen_C17.close_post_wake_receiver = 1 /\
+  (* platform rx task: the deferred consumer wake-up is also issued on the early-return path of poll_ring! *)
+  Gen_C17.rx_early_return_wakes = 1.
 Proof. repeat split; reflexivity. Qed.
 
 (* Every schedule (list of thread choices), every producer / consumer program, every internal
@@ -63,21 +68,30 @@ Proof. exact SpscWakeThm.no_unwritten_slot_code. Qed.
      - a parked receiver (its last poll returned Pending, it has not started anything since and its
        waker has not been invoked) that faces a published tail different from its head, or a closed
        channel, has a producer inside a wake() on its waker that is going to invoke it
-       (SpscWake.wake_pending_r: about to fetch_or on an armed waker, or holding the taken waker);
+       (SpscExplore.wake_pending_r: about to fetch_or on an armed waker, or holding the taken waker);
      - symmetrically a parked sender facing room behind the shared head, or a closed channel.
    The argument is the classic one: the poller re-checks after registering, the notifier publishes
    before waking, and under sequential consistency one of them observes the other. *)
 Theorem C17_spsc_no_lost_wakeup : forall cap sched pp cp, 2 <= cap ->
-  SpscWake.no_lost_wakeup_at cap (y_st (exec code_fixed cap sched pp cp)) = true.
+  SpscExplore.no_lost_wakeup_at cap (y_st (exec code_fixed cap sched pp cp)) = true.
 Proof. exact SpscWakeThm.no_lost_wakeup_code. Qed.
+
+(* Operation granularity -- what the scheduled correspondence observes: when the peer thread is
+   between operations (or gone), a parked receiver faces an empty and open queue, a parked sender a full
+   and open one (nobody can have a wake in flight). *)
+Theorem C17_spsc_quiescent_wake : forall cap sched pp cp, 2 <= cap ->
+  let s := y_st (exec code_fixed cap sched pp cp) in
+  (quiet (ppc s) = true -> SpscExplore.parked_r s = true -> SpscExplore.nonempty_or_closed s = false) /\
+  (quiet (cpc s) = true -> SpscExplore.parked_s s = true -> SpscExplore.space_or_closed cap s = false).
+Proof. exact SpscWakeThm.quiescent_wake. Qed.
 
 (* the bounded exploration of phase 1, kept as an example: every interleaving of three close/drop
    scenarios at internal capacity 2, every intermediate state, including delivery of the pending wake
    within the waking thread's next four steps *)
 Example C17_spsc_wakeup_scenarios :
-  SpscWake.scenario 2 [] [] [ODropS] [ORPoll 1] = true /\
-  SpscWake.scenario 2 [OPush [1]] [] [ODropS] [ORPoll 1] = true /\
-  SpscWake.scenario 2 [OPush [1]] [] [OSPoll [2]] [ODropR] = true.
+  SpscExplore.scenario 2 [] [] [ODropS] [ORPoll 1] = true /\
+  SpscExplore.scenario 2 [OPush [1]] [] [ODropS] [ORPoll 1] = true /\
+  SpscExplore.scenario 2 [OPush [1]] [] [OSPoll [2]] [ODropR] = true.
 Proof.
   exact (conj SpscWake.scen_drops_vs_rpoll (conj SpscWake.scen_drops_vs_rpoll_nonempty SpscWake.scen_spoll_vs_dropr)).
 Qed.
@@ -121,6 +135,10 @@ Theorem C17_cursor_fifo : forall k2, k2 <= 31 -> forall ops k,
   = CursorProofs.cseq (CursorRing.tr s + 1) (N.to_nat (N.min k (CursorRing.c_len s))).
 Proof. exact CursorProofs.cursor_fifo. Qed.
 
+(* the executable judgement of the `cursor` component accepts every run of the model *)
+Theorem C17_cursor_judge_model : forall case, CursorRing.judge case (CursorRing.run case) = true.
+Proof. exact CursorProofs.cursor_judge_run. Qed.
+
 (* ---------------------------------------------------------------------------------------- *)
 (* sync/worker.rs (one Sender handle)                                                        *)
 (* ---------------------------------------------------------------------------------------- *)
@@ -140,6 +158,19 @@ Theorem C17_worker_conservation : forall sched sp rp,
   Worker.remaining s + Worker.credits s + Worker.finished s = Worker.submitted s.
 Proof. exact WorkerProofs.worker_conservation. Qed.
 
+(* ---------------------------------------------------------------------------------------- *)
+(* platform socket ring + rx socket task (socket/ring.rs, socket/task/rx.rs), sequential     *)
+(* ---------------------------------------------------------------------------------------- *)
+(* Receiver::poll of the rx socket task, for every socket script, ring size and prior state of the
+   ring and wakers: if the poll released at least one message into the ring and the consumer has not
+   been dropped, then on whichever path poll returns the consumer's waker cell is empty, and a
+   consumer that was parked (waker registered) has had its waker invoked during this poll. *)
+Theorem C17_rxring_no_lost_wakeup : forall size script s s' code,
+  RxRing.task_poll size script s = (s', code) -> RxRing.ropen s' = true ->
+  RxRing.released s < RxRing.released s' ->
+  RxRing.cw s' = false /\ (RxRing.cw s = true -> RxRing.cwakes s < RxRing.cwakes s').
+Proof. exact RxRingProofs.rx_task_no_lost_wakeup. Qed.
+
 Print Assumptions C17_orderings.
 Print Assumptions C17_spsc_fifo_exactly_once.
 Print Assumptions C17_spsc_no_unwritten_slot.
@@ -150,3 +181,6 @@ Print Assumptions C17_cursor_safe.
 Print Assumptions C17_worker_no_lost_wakeup.
 Print Assumptions C17_worker_conservation.
 Print Assumptions C17_cursor_fifo.
+Print Assumptions C17_rxring_no_lost_wakeup.
+Print Assumptions C17_cursor_judge_model.
+Print Assumptions C17_spsc_quiescent_wake.
